@@ -98,6 +98,23 @@ def max_ranks(dims):
     return [1] + [min(int(np.prod(dims[:k])), int(np.prod(dims[k:]))) for k in range(1, d)] + [1]
 
 
+def feasible_ranks(ranks, dims):
+    """clip a rank vector so that every unfolding of every core can have full rank (r_i <= n_i r_{i+1}, r_{i+1} <= r_i n_i);
+    otherwise the frames of the alternating schemes are rank deficient and the micro systems singular"""
+    ranks = list(ranks)
+    changed = True
+    while changed:
+        changed = False
+        for i in range(len(dims)):
+            if ranks[i] > dims[i] * ranks[i + 1]:
+                ranks[i] = dims[i] * ranks[i + 1]
+                changed = True
+            if ranks[i + 1] > ranks[i] * dims[i]:
+                ranks[i + 1] = ranks[i] * dims[i]
+                changed = True
+    return ranks
+
+
 def side_case(seed):
     rng = random.Random(seed)
     p = hpd_problem(rng)
@@ -118,7 +135,7 @@ def side_case(seed):
             # guesses with ranks above the maximal TT ranks make the micro systems singular (the theorems are
             # conditional on solvable micro systems): stay within the maximal ranks
             mr_ = max_ranks(dims)
-            ranks = [min(a_, b_) for a_, b_ in zip(rranks(rng, order, 3), mr_)]
+            ranks = feasible_ranks([min(a_, b_) for a_, b_ in zip(rranks(rng, order, 3), mr_)], dims)
             g = gen_tt(rng, dims, [1] * order, ranks, cplx, 'float')
             kw = {}
             trunc = False
